@@ -130,3 +130,341 @@ Proof.
   destruct (N.leb_spec ((ci_mm i * 4500 + (ci_ff i + ci_ss i * 75)) * 588) 18446744073709551615) as [_|]; [|lia].
   f_equal. lia.
 Qed.
+
+(* ---- keywords *)
+Lemma kw_no_space : ~ In 32 kw_CATALOG /\ ~ In 32 kw_TRACK /\ ~ In 32 kw_INDEX /\ ~ In 32 kw_ISRC /\ ~ In 32 kw_FLAGS.
+Proof.
+  repeat split; intros H; cbn in H; repeat (destruct H as [H|H]; [discriminate|]); exact H.
+Qed.
+
+Lemma list_eqb_refl a : list_eqb a a = true.
+Proof. induction a as [|x a IH]; cbn [list_eqb]; [reflexivity|]. rewrite N.eqb_refl. exact IH. Qed.
+Lemma list_eqb_eq a : forall b, list_eqb a b = true -> a = b.
+Proof.
+  induction a as [|x a IH]; intros [|y b] H; cbn [list_eqb] in H; try discriminate; [reflexivity|].
+  apply andb_prop in H. destruct H as [H1 H2]. apply N.eqb_eq in H1. apply IH in H2. congruence.
+Qed.
+
+(* ---- ISRC *)
+Lemma filter_split_app pre rest amt f : lenN pre = amt -> forallb f pre = true ->
+  filter_split (pre ++ rest) amt f = Some rest.
+Proof. intros L F. unfold filter_split. rewrite <- L, splitN_app, F. reflexivity. Qed.
+
+Lemma isrc_parts (s : list N) : lenN s = 12 ->
+  s = firstn 2 s ++ firstn 3 (skipn 2 s) ++ firstn 2 (skipn 5 s) ++ skipn 7 s /\
+  length (firstn 2 s) = 2%nat /\ length (firstn 3 (skipn 2 s)) = 3%nat /\
+  length (firstn 2 (skipn 5 s)) = 2%nat /\ length (skipn 7 s) = 5%nat.
+Proof.
+  intros L. rewrite lenN_length in L. assert (L' : length s = 12%nat) by lia.
+  do 12 (destruct s as [|? s]; [cbn in L'; lia|]). destruct s; [|cbn in L'; lia].
+  cbn. auto.
+Qed.
+
+Lemma forallb_skipn5_split (s : list N) : lenN s = 12 -> forallb is_digit (skipn 5 s) = true ->
+  forallb is_digit (firstn 2 (skipn 5 s)) = true /\ forallb is_digit (skipn 7 s) = true.
+Proof.
+  intros L. rewrite lenN_length in L. assert (L' : length s = 12%nat) by lia.
+  do 12 (destruct s as [|? s]; [cbn in L'; lia|]). destruct s; [|cbn in L'; lia].
+  cbn [skipn firstn forallb]. intros H.
+  repeat (apply andb_prop in H; destruct H as [? H]).
+  repeat match goal with E : is_digit _ = true |- _ => rewrite E; clear E end. split; reflexivity.
+Qed.
+
+Lemma no_dash_class c : is_alpha c = true \/ is_alnum c = true \/ is_digit c = true -> (c =? 45) = false.
+Proof.
+  intros H. apply N.eqb_neq. intros ->. destruct H as [H|[H|H]]; vm_compute in H; discriminate.
+Qed.
+
+Lemma wf_isrc_no_dash s : wf_isrc s -> existsb (fun b => b =? 45) s = false /\ filter (fun b => negb (b =? 45)) s = s.
+Proof.
+  intros (L & A & B & D). destruct (isrc_parts s L) as (E & _).
+  destruct (forallb_skipn5_split s L D) as [D1 D2].
+  assert (Hall : Forall (fun c => (c =? 45) = false) s).
+  { rewrite E. rewrite forallb_forall in A, B, D1, D2. rewrite !Forall_app. repeat split; apply Forall_forall; intros c Hc;
+      apply no_dash_class; [left; apply A, Hc|right; left; apply B, Hc|right; right; apply D1, Hc|right; right; apply D2, Hc]. }
+  clear -Hall. induction Hall as [|c s Hc Hs [IH1 IH2]]; [split; reflexivity|].
+  cbn [existsb filter]. rewrite Hc. cbn [orb negb]. rewrite IH1, IH2. split; reflexivity.
+Qed.
+
+Lemma isrc_from_str_plain s : wf_isrc s -> isrc_from_str s = Some s.
+Proof.
+  intros W. destruct (wf_isrc_no_dash s W) as [E1 _]. destruct W as (L & A & B & D).
+  destruct (isrc_parts s L) as (E & L1 & L2 & L3 & L4). destruct (forallb_skipn5_split s L D) as [D1 D2].
+  unfold isrc_from_str. rewrite E1.
+  rewrite E at 1. rewrite filter_split_app; [|rewrite lenN_length, L1; reflexivity|exact A].
+  rewrite filter_split_app; [|rewrite lenN_length, L2; reflexivity|exact B].
+  rewrite filter_split_app; [|rewrite lenN_length, L3; reflexivity|exact D1].
+  rewrite <- (app_nil_r (skipn 7 s)) at 1. rewrite filter_split_app; [|rewrite lenN_length, L4; reflexivity|exact D2].
+  reflexivity.
+Qed.
+
+Lemma filter_dash_app a b : filter (fun b => negb (b =? 45)) (a ++ b) = filter (fun b => negb (b =? 45)) a ++ filter (fun b => negb (b =? 45)) b.
+Proof. apply filter_app. Qed.
+
+Lemma isrc_from_str_dashed d s : wf_isrc s -> isrc_from_str (dashed d s) = Some s.
+Proof.
+  intros W. destruct d; [|apply isrc_from_str_plain, W]. unfold dashed.
+  destruct (wf_isrc_no_dash s W) as [E1 E2]. pose proof W as (L & A & B & D).
+  destruct (isrc_parts s L) as (E & L1 & L2 & L3 & L4).
+  set (p1 := firstn 2 s) in *. set (p2 := firstn 3 (skipn 2 s)) in *. set (p3 := firstn 2 (skipn 5 s)) in *. set (p4 := skipn 7 s) in *.
+  assert (Hall : forall c, In c s -> (c =? 45) = false).
+  { intros c Hc. destruct (c =? 45) eqn:Ec; [|reflexivity]. exfalso.
+    assert (X : existsb (fun b => b =? 45) s = true) by (apply existsb_exists; exists c; auto). congruence. }
+  assert (G : forall q, (forall c, In c q -> In c s) -> filter (fun b => negb (b =? 45)) q = q).
+  { induction q as [|c q IHq]; intros Hq; [reflexivity|]. cbn [filter].
+    rewrite (Hall c (Hq c (or_introl eq_refl))). cbn [negb].
+    f_equal. apply IHq. intros c' Hc'. apply Hq. right. exact Hc'. }
+  assert (F : filter (fun b => negb (b =? 45)) (p1 ++ [45] ++ p2 ++ [45] ++ p3 ++ [45] ++ p4) = s).
+  { rewrite !filter_app. cbn [filter N.eqb Pos.eqb negb app].
+    rewrite !G; try (intros c Hc; rewrite E; rewrite !in_app_iff; auto 10).
+    symmetry. exact E. }
+  unfold isrc_from_str.
+  assert (X : existsb (fun b => b =? 45) (p1 ++ [45] ++ p2 ++ [45] ++ p3 ++ [45] ++ p4) = true).
+  { apply existsb_exists. exists 45. split; [rewrite !in_app_iff; right; left; left; reflexivity|reflexivity]. }
+  rewrite X, F. clear X F.
+  pose proof (isrc_from_str_plain s W) as P. unfold isrc_from_str in P. rewrite E1 in P. exact P.
+Qed.
+
+Lemma unquote_quoted q s : (forall r, s <> 34 :: r) \/ q = true -> s <> [] -> unquote (quoted q s) = s.
+Proof.
+  intros H NE. unfold quoted. destruct q.
+  - unfold unquote. rewrite rev_app_distr. cbn [rev app]. rewrite rev_involutive. reflexivity.
+  - destruct H as [H|H]; [|discriminate]. unfold unquote. destruct s as [|c r]; [congruence|].
+    destruct (N.eq_dec c 34) as [->|Hc]; [exfalso; eapply H; reflexivity|].
+    destruct c as [|p]; [reflexivity|]. do 6 (destruct p as [p|p|]; try reflexivity). congruence.
+Qed.
+
+(* ---- one line at a time *)
+Lemma split_kw kw rest : ~ In 32 kw ->
+  match split_once 32 (kw ++ [32] ++ rest) with Some p => p | None => (kw ++ [32] ++ rest, []) end = (kw, rest).
+Proof. intros H. cbn [app]. rewrite split_once_app by exact H. reflexivity. Qed.
+
+Lemma parse_track_line st t S : 1 <= ct_num t -> ct_num t <= 255 ->
+  parse_trimmed true S (track_line st t) =
+  match ps_wip S with
+  | Some fin =>
+    (trk <- finish_track fin ;; S' <- push_track true S trk ;;
+     Ok (mkPs (ps_catalog S') (ps_tracks_rev S') (ps_ntracks S') (Some (wip_new (ct_num t)))))%res
+  | None => Ok (mkPs (ps_catalog S) (ps_tracks_rev S) (ps_ntracks S) (Some (wip_new (ct_num t))))
+  end.
+Proof.
+  intros H1 H2. unfold parse_trimmed, track_line.
+  rewrite split_kw by apply kw_no_space.
+  change (list_eqb kw_TRACK kw_CATALOG) with false. change (list_eqb kw_TRACK kw_TRACK) with true. cbv iota.
+  assert (Hn : ct_num t < TEN20) by (unfold TEN20; lia).
+  destruct (num_spec (st_pad_track st) (ct_num t) Hn) as (V & F & NE).
+  cbn [app]. rewrite split_once_app by (apply digits_no_sep; [exact F|lia]).
+  unfold parse_nonzero_u8, parse_u8. rewrite parse_uint_num by lia.
+  destruct (N.eqb_spec (ct_num t) 0); [lia|]. reflexivity.
+Qed.
+
+Lemma parse_flags_line S w : ps_wip S = Some w -> w_ix_rev w = [] ->
+  parse_trimmed true S flags_line =
+  Ok (mkPs (ps_catalog S) (ps_tracks_rev S) (ps_ntracks S)
+           (Some (mkWip (w_offset w) (w_number w) (w_isrc w) true (w_ix_rev w) (w_ix_len w)))).
+Proof.
+  intros Hw Hix. unfold parse_trimmed, flags_line. rewrite split_kw by apply kw_no_space.
+  change (list_eqb kw_FLAGS kw_CATALOG) with false. change (list_eqb kw_FLAGS kw_TRACK) with false.
+  change (list_eqb kw_FLAGS kw_INDEX) with false. change (list_eqb kw_FLAGS kw_ISRC) with false.
+  change (list_eqb kw_FLAGS kw_FLAGS && list_eqb kw_PRE kw_PRE) with true. cbv iota.
+  rewrite Hw, Hix. reflexivity.
+Qed.
+
+Lemma wf_isrc_nonempty s : wf_isrc s -> s <> [] /\ (forall r, s <> 34 :: r).
+Proof.
+  intros (L & A & _). split.
+  - intros ->. cbn in L. lia.
+  - intros r ->. cbn [firstn forallb] in A. vm_compute in A. discriminate.
+Qed.
+
+Lemma dashed_first d s : wf_isrc s -> dashed d s <> [] /\ (forall r, dashed d s <> 34 :: r).
+Proof.
+  intros W. destruct (wf_isrc_nonempty s W) as [NE NQ]. destruct d; [|split; assumption].
+  destruct W as (L & A & _). destruct (isrc_parts s L) as (E & L1 & _). unfold dashed.
+  destruct (firstn 2 s) as [|c q] eqn:F; [cbn in L1; lia|]. cbn [app]. split; [discriminate|].
+  intros r Hr. injection Hr as -> _. cbn [forallb] in A. vm_compute in A. discriminate.
+Qed.
+
+Lemma parse_isrc_line st S w s : wf_isrc s -> ps_wip S = Some w -> w_ix_rev w = [] -> w_isrc w = IsrcNone ->
+  parse_trimmed true S (isrc_line st s) =
+  Ok (mkPs (ps_catalog S) (ps_tracks_rev S) (ps_ntracks S)
+           (Some (mkWip (w_offset w) (w_number w) (IsrcStr s) (w_pre w) (w_ix_rev w) (w_ix_len w)))).
+Proof.
+  intros W Hw Hix Hi. unfold parse_trimmed, isrc_line. rewrite split_kw by apply kw_no_space.
+  change (list_eqb kw_ISRC kw_CATALOG) with false. change (list_eqb kw_ISRC kw_TRACK) with false.
+  change (list_eqb kw_ISRC kw_INDEX) with false. change (list_eqb kw_ISRC kw_ISRC) with true. cbv iota.
+  rewrite Hw, Hix, Hi. destruct (dashed_first (st_dash_isrc st) s W) as [NE NQ].
+  rewrite unquote_quoted by (auto). rewrite isrc_from_str_dashed by exact W. reflexivity.
+Qed.
+
+Lemma parse_catalog_line st S d : lenN d = 13 -> forallb is_digit d = true -> ps_catalog S = None ->
+  parse_trimmed true S (catalog_line st d) =
+  Ok (mkPs (Some d) (ps_tracks_rev S) (ps_ntracks S) (ps_wip S)).
+Proof.
+  intros L D Hc. unfold parse_trimmed, catalog_line. rewrite split_kw by apply kw_no_space.
+  change (list_eqb kw_CATALOG kw_CATALOG) with true. cbv iota.
+  assert (NE : d <> []) by (intros ->; cbn in L; lia).
+  assert (NQ : forall r, d <> 34 :: r) by (intros r ->; cbn [forallb] in D; vm_compute in D; discriminate).
+  assert (Q : quoted (st_quote_catalog st) d <> []) by (unfold quoted; destruct (st_quote_catalog st); [discriminate|exact NE]).
+  destruct (quoted (st_quote_catalog st) d) as [|q0 qr] eqn:EQ; [congruence|]. rewrite <- EQ.
+  rewrite Hc. rewrite unquote_quoted by auto. unfold cdda_catalog. rewrite D, L. reflexivity.
+Qed.
+
+Lemma index_line_split st i : wf_index i -> ci_mm i < TEN20 -> ci_num i <= 255 ->
+  exists numtxt, index_line st i = kw_INDEX ++ [32] ++ numtxt ++ [32] ++ time_text st i /\
+                 ~ In 32 numtxt /\ parse_u8 numtxt = Some (ci_num i) /\
+                 parse_offset true (time_text st i) = Some (ci_samples i).
+Proof.
+  intros W Hm Hn. exists (num (st_pad_index st) (ci_num i)).
+  assert (Hn20 : ci_num i < TEN20) by (unfold TEN20; lia).
+  destruct (num_spec (st_pad_index st) (ci_num i) Hn20) as (V & F & NE).
+  split; [reflexivity|]. split; [apply digits_no_sep; [exact F|lia]|].
+  split; [unfold parse_u8; apply parse_uint_num; lia|]. unfold parse_offset. apply time_text_parses; assumption.
+Qed.
+
+Lemma parse_index_first st S w i : wf_index i -> ci_mm i < TEN20 ->
+  (ci_num i = 0 \/ ci_num i = 1) -> ps_wip S = Some w ->
+  w_offset w = None -> w_ix_rev w = [] -> w_ix_len w = 0 ->
+  (ps_ntracks S = 0 -> ci_samples i = 0) ->
+  parse_trimmed true S (index_line st i) =
+  Ok (mkPs (ps_catalog S) (ps_tracks_rev S) (ps_ntracks S)
+           (Some (mkWip (Some (ci_samples i)) (w_number w) (w_isrc w) (w_pre w) [mkIx 0 (ci_num i)] 1))).
+Proof.
+  intros W Hm Hn Hw Ho Hix Hl Hz.
+  destruct (index_line_split st i W Hm ltac:(lia)) as (numtxt & -> & NS & PN & PO).
+  unfold parse_trimmed. rewrite split_kw by apply kw_no_space.
+  change (list_eqb kw_INDEX kw_CATALOG) with false. change (list_eqb kw_INDEX kw_TRACK) with false.
+  change (list_eqb kw_INDEX kw_INDEX) with true. cbv iota.
+  cbn [app]. rewrite split_once_app by exact NS. rewrite PN, PO, Hw, Ho.
+  assert (Hc : (ps_ntracks S =? 0) && negb (ci_samples i =? 0) = false).
+  { destruct (N.eqb_spec (ps_ntracks S) 0) as [E|]; [|reflexivity]. rewrite (Hz E). reflexivity. }
+  rewrite Hc. cbn [bind]. rewrite Hix, Hl. unfold try_push, index_max, CDDA_MAX_INDEX_TEXT.
+  change (0 <? 100) with true. cbv iota. unfold index_valid_first. cbn [ix_off ix_num].
+  change (0 =? 0) with true. assert (Hv : (ci_num i =? 0) || (ci_num i =? 1) = true).
+  { destruct Hn as [-> | ->]; reflexivity. }
+  rewrite Hv. cbn [andb bind]. reflexivity.
+Qed.
+
+Lemma parse_index_next st S w i off last_ix rest_rev : wf_index i -> ci_mm i < TEN20 -> ci_num i <= 255 ->
+  ps_wip S = Some w -> w_offset w = Some off -> w_ix_rev w = last_ix :: rest_rev -> w_ix_len w < 100 ->
+  off < ci_samples i -> ix_off last_ix < ci_samples i - off -> ci_num i = ix_num last_ix + 1 ->
+  parse_trimmed true S (index_line st i) =
+  Ok (mkPs (ps_catalog S) (ps_tracks_rev S) (ps_ntracks S)
+           (Some (mkWip (Some off) (w_number w) (w_isrc w) (w_pre w) (index_of off i :: last_ix :: rest_rev) (N.succ (w_ix_len w))))).
+Proof.
+  intros W Hm Hn Hw Ho Hix Hl Hoff Hrel Hnum.
+  destruct (index_line_split st i W Hm Hn) as (numtxt & -> & NS & PN & PO).
+  unfold parse_trimmed. rewrite split_kw by apply kw_no_space.
+  change (list_eqb kw_INDEX kw_CATALOG) with false. change (list_eqb kw_INDEX kw_TRACK) with false.
+  change (list_eqb kw_INDEX kw_INDEX) with true. cbv iota.
+  cbn [app]. rewrite split_once_app by exact NS. rewrite PN, PO, Hw, Ho.
+  destruct (N.ltb_spec off (ci_samples i)) as [_|]; [|lia]. cbn [bind]. rewrite Hix.
+  unfold try_push, index_max, CDDA_MAX_INDEX_TEXT.
+  destruct (N.ltb_spec (w_ix_len w) 100) as [_|]; [|lia].
+  unfold index_is_next. cbn [ix_off ix_num].
+  destruct (N.ltb_spec (ix_off last_ix) (ci_samples i - off)) as [_|]; [|lia].
+  destruct (N.ltb_spec (ix_num last_ix + 1) 256) as [_|]; [|lia].
+  destruct (N.eqb_spec (ci_num i) (ix_num last_ix + 1)) as [_|]; [|lia].
+  cbn [andb bind]. destruct w; cbn in *. subst. reflexivity.
+Qed.
+
+(* ---- runs of lines *)
+Fixpoint run (S : pstate) (ls : list (list N)) : res pstate :=
+  match ls with
+  | [] => Ok S
+  | l :: r => (S' <- parse_trimmed true S l ;; run S' r)%res
+  end.
+
+Lemma run_app : forall a b S, run S (a ++ b) = (S' <- run S a ;; run S' b)%res.
+Proof.
+  induction a as [|l a IH]; intros b S; cbn [app run bind]; [reflexivity|].
+  destruct (parse_trimmed true S l); cbn [bind]; [apply IH|reflexivity|reflexivity].
+Qed.
+
+Lemma parse_lines_run : forall raws S, parse_lines true S raws = run S (map trim raws).
+Proof.
+  induction raws as [|l r IH]; intros S; cbn [parse_lines map run]; [reflexivity|].
+  unfold parse_line. destruct (parse_trimmed true S (trim l)); cbn [bind]; [apply IH|reflexivity|reflexivity].
+Qed.
+
+Lemma insignificant_skip S l : significant l = false -> parse_trimmed true S l = Ok S.
+Proof.
+  unfold significant, parse_trimmed.
+  destruct (match split_once 32 l with Some p => p | None => (l, []) end) as [kw rest].
+  intros H. repeat (apply orb_false_elim in H; destruct H as [H ?]).
+  repeat match goal with E : _ = false |- _ => rewrite E; clear E end. reflexivity.
+Qed.
+
+Lemma run_filter : forall ls S, run S ls = run S (filter significant ls).
+Proof.
+  induction ls as [|l r IH]; intros S; cbn [run filter]; [reflexivity|].
+  destruct (significant l) eqn:E.
+  - cbn [run]. destruct (parse_trimmed true S l); cbn [bind]; auto.
+  - rewrite insignificant_skip by exact E. cbn [bind]. apply IH.
+Qed.
+
+Lemma samples_frames i : ci_samples i = 588 * ci_frames i.
+Proof. unfold ci_samples. lia. Qed.
+
+Lemma wf_index_mm i : wf_index i -> ci_mm i < TEN20.
+Proof.
+  intros (_ & _ & H). unfold ci_samples, ci_frames, U64_MAX in H. unfold TEN20. lia.
+Qed.
+
+Lemma run_index_rest st : forall idxs S w off last_ix rest_rev prevf,
+  ps_wip S = Some w -> w_offset w = Some off -> w_ix_rev w = last_ix :: rest_rev ->
+  w_ix_len w + lenN idxs <= 100 -> Forall wf_index idxs ->
+  off <= 588 * prevf -> ix_off last_ix = 588 * prevf - off ->
+  index_chain prevf (ix_num last_ix) idxs -> ix_num last_ix + lenN idxs <= 255 ->
+  run S (map (index_line st) idxs) =
+  Ok (mkPs (ps_catalog S) (ps_tracks_rev S) (ps_ntracks S)
+           (Some (mkWip (Some off) (w_number w) (w_isrc w) (w_pre w)
+                        (rev (map (index_of off) idxs) ++ last_ix :: rest_rev) (w_ix_len w + lenN idxs)))).
+Proof.
+  induction idxs as [|i r IH]; intros S w off last_ix rest_rev prevf Hw Ho Hix Hlen Hwf Hoff Hlast Hch Hnum.
+  - cbn [map run rev app lenN]. rewrite N.add_0_r. destruct S, w; cbn in *. subst. reflexivity.
+  - cbn [map run]. inversion Hwf as [|? ? Wi Wr]; subst. cbn [index_chain] in Hch. destruct Hch as (C1 & C2 & C3).
+    cbn [lenN] in Hlen, Hnum.
+    rewrite (parse_index_next st S w i off last_ix rest_rev); try assumption;
+      try (rewrite samples_frames; lia); try lia; [|apply wf_index_mm, Wi].
+    cbn [bind].
+    match goal with |- run (mkPs ?a ?b ?c (Some ?w')) _ = _ =>
+      rewrite (IH (mkPs a b c (Some w')) w' off (index_of off i) (last_ix :: rest_rev) (ci_frames i)) end;
+      cbn [ps_wip ps_catalog ps_tracks_rev ps_ntracks w_offset w_ix_rev w_ix_len w_number w_isrc w_pre];
+      try reflexivity; try assumption; try lia.
+    + replace (N.succ (w_ix_len w) + lenN r) with (w_ix_len w + N.succ (lenN r)) by lia.
+      cbn [rev map]. rewrite <- app_assoc. reflexivity.
+    + unfold index_of. cbn [ix_off]. rewrite samples_frames. reflexivity.
+    + unfold index_of. cbn [ix_num]. lia.
+Qed.
+
+(* ---- one track *)
+Definition isrc_of (t : cue_track) : isrc := match ct_isrc t with Some s => IsrcStr s | None => IsrcNone end.
+Definition first_samples (t : cue_track) : N := match ct_indices t with i0 :: _ => ci_samples i0 | [] => 0 end.
+Definition wip_full (t : cue_track) : wip :=
+  mkWip (Some (first_samples t)) (ct_num t) (isrc_of t) (ct_pre t)
+        (rev (map (index_of (first_samples t)) (ct_indices t))) (lenN (ct_indices t)).
+Definition with_wip (S : pstate) (w : wip) : pstate := mkPs (ps_catalog S) (ps_tracks_rev S) (ps_ntracks S) (Some w).
+
+Definition body_lines (st : style) (t : cue_track) : list (list N) :=
+  (let fl := if ct_pre t then [flags_line] else [] in
+   let il := match ct_isrc t with Some s => [isrc_line st s] | None => [] end in
+   if st_flags_first st then fl ++ il else il ++ fl) ++ map (index_line st) (ct_indices t).
+
+Lemma track_lines_eq st t : track_lines st t = track_line st t :: body_lines st t.
+Proof. reflexivity. Qed.
+
+Lemma run_header st t S : wf_track t -> ps_wip S = Some (wip_new (ct_num t)) ->
+  run S ((let fl := if ct_pre t then [flags_line] else [] in
+          let il := match ct_isrc t with Some s => [isrc_line st s] | None => [] end in
+          if st_flags_first st then fl ++ il else il ++ fl)) =
+  Ok (with_wip S (mkWip None (ct_num t) (isrc_of t) (ct_pre t) [] 0)).
+Proof.
+  intros (_ & _ & Wi) Hw. unfold isrc_of, with_wip. cbv zeta.
+  destruct (ct_pre t) eqn:P, (ct_isrc t) as [s|] eqn:I, (st_flags_first st); cbn [app run];
+    repeat first
+      [ erewrite parse_flags_line by (cbn [ps_wip]; first [eassumption | reflexivity])
+      | erewrite parse_isrc_line by (cbn [ps_wip]; first [eassumption | reflexivity])
+      | progress cbn [bind ps_wip ps_catalog ps_tracks_rev ps_ntracks w_offset w_number w_isrc w_pre w_ix_rev w_ix_len wip_new] ];
+    try (destruct S; cbn in *; subst; reflexivity).
+Qed.
